@@ -189,6 +189,8 @@ type executor struct {
 	assumeNotes map[string]bool
 	recursionMeasure *T
 	curState *state
+	usesCivil bool
+	loopHeapLocals []modTarget
 }
 
 func newExecutor(prog *program, specs *specDB) *executor {
@@ -638,19 +640,32 @@ func (x *executor) enterLoopHeader(m *machine, fr *frame, li *loopInfo) bool {
 		return false
 	}
 	// entry edge
-	ev := x.contractEval(m, fr, pos, "")
+	lr := &loopRun{li: li, lc: lc, allocMark: m.st.nextRef, preSt: m.st.clone()}
+	ev := x.loopEval(x.contractEval(m, fr, pos, ""), lr)
 	for i, cl := range lc.invariants {
 		ev.where = cl.line
 		x.oblige(m, "inv-init", fmt.Sprintf("%s.%s", lname, clauseName(cl, i)), ev.evalBool(cl.e), cl.tags, cl.text)
 	}
-	lr := &loopRun{li: li, lc: lc, allocMark: m.st.nextRef, preSt: m.st.clone()}
 	// modifies targets evaluated before the havoc
 	for _, cl := range lc.modifies {
 		ev.where = cl.line
 		lr.modRefs = append(lr.modRefs, x.modTargetOf(ev, cl.e))
 	}
 	// havoc cells assigned in the loop
-	for _, cell := range x.cellsWrittenInLoop(m, fr, li) {
+	x.loopHeapLocals = nil
+	written := x.cellsWrittenInLoop(m, fr, li)
+	for _, mt := range x.loopHeapLocals {
+		dup := false
+		for _, o := range lr.modRefs {
+			if o.heap == mt.heap && o.sort == mt.sort && same(o.ref, mt.ref) {
+				dup = true
+			}
+		}
+		if !dup {
+			lr.modRefs = append(lr.modRefs, mt)
+		}
+	}
+	for _, cell := range written {
 		old, ok := m.st.cells[cell]
 		if !ok {
 			continue
@@ -690,6 +705,8 @@ func (x *executor) enterLoopHeader(m *machine, fr *frame, li *loopInfo) bool {
 func (x *executor) loopEval(ev *evaluator, lr *loopRun) *evaluator {
 	n := *ev
 	n.preloop = lr.preSt
+	n.loopMark = lr.allocMark
+	n.inLoop = true
 	return &n
 }
 
@@ -704,6 +721,9 @@ func clauseName(cl *clause, i int) string {
 func (x *executor) valueWF(v *T, t types.Type) *T { return x.c.valueWF(v, t) }
 
 func (c *ctx) valueWF(v *T, t types.Type) *T {
+	if isTimeType(t) {
+		return tTrue
+	}
 	if w, s, ok := intInfo(t); ok {
 		return c.inRange(v, w, s)
 	}
@@ -847,7 +867,14 @@ func (x *executor) cellsWrittenInLoop(m *machine, fr *frame, li *loopInfo) []*Ce
 	resolveTop := func(v ssa.Value) *Cell {
 		switch a := v.(type) {
 		case *ssa.Alloc:
-			return fr.cells[a]
+			if c := fr.cells[a]; c != nil {
+				return c
+			}
+			// a local that lives in the object heap (its address escapes): havoc that object
+			if pv, ok := fr.env[a]; ok && pv.ptr != nil && pv.ptr.kind == pkHeap && len(pv.ptr.path) == 0 {
+				x.loopHeapLocals = append(x.loopHeapLocals, modTarget{heap: true, typ: pv.ptr.base, sort: heapKey(pv.ptr.base), ref: pv.ptr.ref})
+			}
+			return nil
 		case *ssa.FreeVar:
 			if pv, ok := fr.env[a]; ok && pv.ptr != nil && pv.ptr.kind == pkCell {
 				return pv.ptr.cell
